@@ -24,7 +24,7 @@ use serde_json::Value;
 use uuid::Uuid;
 
 use super::authentication::{
-    mdoc::{device_authentication, issuer_authentication},
+    mdoc::{device_authentication, issuer_authentication, issuer_data_authentication},
     AuthenticationStatus, ResponseAuthenticationOutcome,
 };
 
@@ -375,7 +375,9 @@ impl SessionManager {
             .validate(&x5chain, &self.trust_anchor_registry)
             .errors;
         if validation_errors.is_empty() {
-            match issuer_authentication(x5chain, &document.issuer_signed) {
+            match issuer_authentication(x5chain, &document.issuer_signed)
+                .and_then(|_| issuer_data_authentication(&document))
+            {
                 Ok(_) => {
                     validated_response.issuer_authentication = AuthenticationStatus::Valid;
                 }
